@@ -755,7 +755,7 @@ class Unit:
             if kind == 'okfrom':
                 ok, txt = payload
                 self.lines.append(Line('    if vx_nondet() { assert(%s); }   // %s' % ('true' if ok else 'false', txt.replace('\n', ' ')),
-                                       ('spec', base, tline, name, 'C20.result-built-without-%s' % '-or-'.join(okfrom), ['C20']), name + '_slice'))
+                                       ('spec', base, tline, name, 'C20.result-built-without-%s' % '-or-'.join(okfrom), ['C20', 'C10', 'C11']), name + '_slice'))
                 continue
             if kind == 'guard':
                 a, b = payload
